@@ -161,7 +161,7 @@ class CursorSpy(RowSpy):
             self.crow -= 1
         else:
             return super().keypress(size, key)
-        self.log.append(("keypress", self.name, tuple(size), key, True))
+        self.log.append(("keypress", self.name, tuple(size), key, "cursor-move"))  # consumed, but the view may follow the cursor
         self._invalidate()
         return None
 
